@@ -34,6 +34,7 @@ type c19Cfg struct {
 	Prefix   bool
 	Hint     string // none | name | alias | dot
 	NoFormat bool
+	Extra    []string // further tags (stream texts, c19_texts.go)
 }
 
 // preamble block number i (0-based) in the given style. Raw blocks alternate between the
@@ -232,6 +233,7 @@ func c19Make(cfg c19Cfg) *Case {
 	if cfg.NoFormat {
 		tags = append(tags, "noformat")
 	}
+	tags = append(tags, cfg.Extra...)
 	if cfg.Use == "neither" && len(cfg.Pre) > 0 {
 		tags = append(tags, "preamble-only")
 	}
@@ -356,7 +358,8 @@ func (c19) Generate(r *rand.Rand, t string) []*Case {
 		}
 	}
 	// last, so that the draws of the product above do not change
-	return append(out, c19Mixed(r, t)...)
+	out = append(out, c19Mixed(r, t)...)
+	return append(out, c19Texts(r, t)...) // c19_texts.go
 }
 
 func (c19) Regressions() []*Case {
@@ -400,7 +403,13 @@ func (c19) Oracle(c *Case, got []hist.Obs) string {
 	if o.Kind != "write" || o.Failed {
 		return "the file was not rendered: " + o.String()
 	}
-	return C19Check(cfg.Use == "qual" || cfg.Use == "both", cfg.Use == "anon" || cfg.Use == "both", cfg.Pre, others, o.Out)
+	if v := C19Check(cfg.Use == "qual" || cfg.Use == "both", cfg.Use == "anon" || cfg.Use == "both", cfg.Pre, others, o.Out); v != "" {
+		return v
+	}
+	if cfg.Stream == "texts" && cfg.NoFormat {
+		return c19ExactDoc(cfg.Pre, o.Out)
+	}
+	return ""
 }
 
 // commentLines strips the comment markers of one comment (as written in Go source or as
